@@ -120,16 +120,23 @@ fn effective_dir(req: &Req) -> Direction {
 // generated cmap/hmtx(/vmtx) fonts
 
 struct SimpleFont {
+    /// unmapped ASCII characters whose private-use twins U+F000 + c the font maps (symbol-like fonts)
+    twins: Vec<u32>,
     spec: FontSpec,
     mapped: Vec<u32>,
     unmapped: Vec<u32>,
 }
 
 fn gen_simple_font(rng: &mut Rng, idx: u64) -> SimpleFont {
+    // "symbol-like" fonts: ONE encoding record (any of the eight kinds, none of them Windows Symbol) and private-use
+    // entries at U+F000 + c for ASCII characters c the font does not map: only a (3, 0) subtable may fall back from c to
+    // U+F000 + c, so these characters must come out as .notdef
+    let symbol_like = idx % 4 == 3 && rng.chance(1, 3);
     let fmt = match idx % 4 {
         0 => CmapFormat::Format12,
         1 => CmapFormat::Format4,
         2 => CmapFormat::Both,
+        _ if symbol_like => CmapFormat::Records(1u8 << rng.below(8)),
         // several encoding records, the mapping in the most preferred one and decoys in the others
         _ => CmapFormat::Records((1 + rng.below(255)) as u8),
     };
@@ -163,6 +170,20 @@ fn gen_simple_font(rng: &mut Rng, idx: u64) -> SimpleFont {
         } else {
             rest.push(c);
         }
+    }
+    let mut twins: Vec<u32> = Vec::new();
+    if symbol_like {
+        // unmapped ASCII letters / digits whose private-use twins are mapped
+        let ascii: Vec<u32> = rest.iter().copied().filter(|c| (0x30..=0x7A).contains(c)).collect();
+        twins = ascii.iter().take(8).copied().collect();
+        for c in ascii.iter().take(8) {
+            chosen.push(0xF000 + *c);
+        }
+        // and put those characters first in the list of unmapped ones the texts draw from
+        rest.retain(|c| !ascii.iter().take(8).any(|a| a == c));
+        let mut front: Vec<u32> = ascii.iter().take(8).copied().collect();
+        front.extend(rest.iter().copied());
+        rest = front;
     }
     chosen.sort();
     chosen.dedup();
@@ -238,7 +259,7 @@ fn gen_simple_font(rng: &mut Rng, idx: u64) -> SimpleFont {
     if fmt.is_16bit() {
         unmapped.extend([0xF0000, 0xF0001]);
     }
-    SimpleFont { spec, mapped: chosen.into_iter().filter(|c| !VS.contains(c)).collect(), unmapped }
+    SimpleFont { twins, spec, mapped: chosen.into_iter().filter(|c| !VS.contains(c)).collect(), unmapped }
 }
 
 fn gen_simple_req(rng: &mut Rng, f: &SimpleFont) -> Req {
@@ -263,7 +284,7 @@ fn gen_simple_req(rng: &mut Rng, f: &SimpleFont) -> Req {
     let free_clusters = !with_vs && rng.chance(1, 5);
     let mut i = 0;
     while i < len {
-        let mut c = if rng.chance(1, 10) && !f.unmapped.is_empty() { *rng.pick(&f.unmapped) } else { *rng.pick(&sub) };
+        let mut c = if !f.twins.is_empty() && rng.chance(1, 3) { *rng.pick(&f.twins) } else if rng.chance(1, 10) && !f.unmapped.is_empty() { *rng.pick(&f.unmapped) } else { *rng.pick(&sub) };
         let mut force_vs = false;
         if with_vs && !f.spec.cmap14.is_empty() && rng.chance(1, 4) {
             c = rng.pick(&f.spec.cmap14).0;
